@@ -13,7 +13,7 @@
   configuration; the parser is property C09's subject).  All theorems hold for every field `K`; the driver runs
   the same definitions at `K = Rat`.
 -/
-import Proofs.C10_System
+import Proofs.C10_Setters
 import Atomman.C09
 import Mathlib.Algebra.Order.Field.Rat
 
@@ -89,6 +89,22 @@ theorem valueUnit_model_nested (fac : String → K) (units : Option String) (s :
   obtain ⟨m, h1, h2⟩ := valueUnit_model fac units ⟨s, .flt (t.flatten s)⟩
     (by simpa [Data.length] using length_flatten_of_shape s t ht) hne hf (by intro l h; cases h)
   exact ⟨m, t.flatten s, h1, by simpa [Data.castU] using h2, unflatten_flatten s t ht⟩
+
+/-- **valueUnit_model_xml**: the same through XML text (the codec collapses one-element lists, `xmlNorm`): shape
+    and buffer come back for every array except that a length-1 *vector* (shape `[1]`, written without a `shape`
+    entry) is read as a scalar (`xmlShape`); every other shape — `[1,1]`, `[1,3]`, `[n,1]`, … — is restored from
+    the `shape` entry.  (`Atoms`/`System` undo the exception by broadcasting, see `atoms_model_roundtrip_xml`.) -/
+theorem valueUnit_model_xml (fac : String → K) (units : Option String) (a : Arr K)
+    (hw : a.data.length = prodNat a.shape) (hne : prodNat a.shape ≠ 0)
+    (hf : ∀ u, units = some u → factor fac u ≠ 0)
+    (hs : ∀ l, a.data = Data.str l → units = none) :
+    ∃ t, ucModel fac units a = some t ∧ valueUnit fac (xmlNorm t) = some ⟨xmlShape a.shape, a.data.castU units⟩ := by
+  obtain ⟨t, h1, h2⟩ := valueUnit_model_two_xml fac fac units a hw hne hs
+  exact ⟨t, h1, by rw [h2, rescale_self fac units hf]⟩
+
+theorem xmlShape_eq (sh : List Nat) (h : sh ≠ [1]) : xmlShape sh = sh := by simp [xmlShape, h]
+
+example : xmlShape [1, 1] = [1, 1] ∧ xmlShape [4, 1, 3] = [4, 1, 3] ∧ xmlShape [1] = [] := by decide
 
 /-! ## physical value vs working units -/
 
@@ -197,6 +213,18 @@ theorem box_model_roundtrip_exact [LT K] [DecidableLT K] (fac : String → K) (e
 example : cleanVects (1 / 1000000000 : ℚ) ⟨⟨4, 0, 0⟩, ⟨-1 / 2, 3, 0⟩, ⟨1 / 4, 1, 5⟩⟩
     = ⟨⟨4, 0, 0⟩, ⟨-1 / 2, 3, 0⟩, ⟨1 / 4, 1, 5⟩⟩ := by decide +kernel
 
+/-- the same through XML text. -/
+theorem box_model_roundtrip_xml [LT K] [DecidableLT K] (fac : String → K) (eps : K) (u : Option String) (b : Box K)
+    (hf : ∀ s, u = some s → factor fac s ≠ 0) :
+    ∃ t, boxModel fac u b = some t ∧ boxRead fac eps (xmlNorm t) = some ⟨cleanVects eps b.vects, b.origin⟩ := by
+  obtain ⟨bm, h1, h2⟩ := box_model_node_xml fac fac eps u b
+  refine ⟨_, h1, ?_⟩
+  have hx : xmlNorm (DM.node [("box", bm)]) = DM.node [("box", xmlNorm bm)] := by simp [xmlNorm, xmlNormKV]
+  have hid : scaleFn fac fac u = fun x => x := funext (scaleFn_self fac u hf)
+  rw [hx, h2 _ (by simp [List.lookup]), hid]
+  obtain ⟨⟨⟨a, b, c⟩, ⟨d, e, f⟩, ⟨g, h, i⟩⟩, ⟨x, y, z⟩⟩ := b
+  simp [mapM3, V3.map]
+
 /-! ## Atoms -/
 
 /-- **atoms_model_roundtrip**: `Atoms(model=atoms.model(prop_unit=…))` has the same `natoms`, the same property
@@ -210,6 +238,23 @@ theorem atoms_model_roundtrip (fac : String → K) (a : AtomsM K) (hw : a.Wf) (u
       atomsRead fac t = some ⟨a.natoms,
         a.props.map (fun p => (p.1, ⟨p.2.shape, p.2.data.castU (effUnit p.1 (un p.1))⟩))⟩ := by
   obtain ⟨t, h1, h2⟩ := atoms_model_two fac fac a hw un hu
+  refine ⟨t, h1, ?_⟩
+  rw [h2]
+  congr 2
+  apply List.map_congr_left
+  intro p hp
+  simp only [propTwo, rescale_self fac _ (hf p hp)]
+
+/-- **atoms_model_roundtrip_xml**: the same through XML text, *exactly* — with one atom the rank-1 properties are
+    read back as scalars (`valueUnit_model_xml`) and `Atoms.__init__` broadcasts them to `natoms = 1` again; a
+    single `property` entry is not a list in XML and `aslist` restores it. -/
+theorem atoms_model_roundtrip_xml (fac : String → K) (a : AtomsM K) (hw : a.Wf) (un : String → Option String)
+    (hu : UnitsOk a un)
+    (hf : ∀ p ∈ a.props, ∀ s, effUnit p.1 (un p.1) = some s → factor fac s ≠ 0) :
+    ∃ t, atomsModel fac (a.props.map (fun p => (p.1, un p.1))) a = some t ∧
+      atomsRead fac (xmlNorm t) = some ⟨a.natoms,
+        a.props.map (fun p => (p.1, ⟨p.2.shape, p.2.data.castU (effUnit p.1 (un p.1))⟩))⟩ := by
+  obtain ⟨t, h1, h2⟩ := atoms_model_two_xml fac fac a hw un hu
   refine ⟨t, h1, ?_⟩
   rw [h2]
   congr 2
@@ -254,30 +299,24 @@ theorem rel_cart_id (b : Box K) (hd : M3.det b.vects ≠ 0) (v : V3 K) : b.relTo
   have := rel_cart_scaled ⟨⟨a, b, c⟩, ⟨d, e, f⟩, ⟨g, h, i⟩⟩ ⟨x, y, z⟩ 1 hd v
   simpa [mapM3, V3.map] using this
 
-/-- **system_model_roundtrip**: `System(model=system.model(box_unit=…, prop_unit=…))` reproduces the cell and
-    origin, the periodic flags, the symbols and masses (missing ones as `None`, the `atom-type-mass` entries
-    omitted when all are missing), `natoms`, and every per-atom property — shape and buffer — including
-    properties stored box-scaled (`'scaled'`: written through `cartToRel`, read through `relToCart` of the
-    re-read box; exact because the cell is non-degenerate).  Hypotheses: the `System`/`Atoms`/`Box` object
-    invariants (`hw`, `hb`), an admissible unit assignment, non-zero unit factors, and `det ≠ 0` when some
-    property is stored scaled. -/
-theorem system_model_roundtrip [LT K] [DecidableLT K] (fac : String → K) (eps : K) (boxUnit : Option String)
+/-- what the two-configuration reader returns, specialised to one configuration: the original system. -/
+theorem system_expected_same [LT K] [DecidableLT K] (fac : String → K) (eps : K) (boxUnit : Option String)
     (s : SystemM K) (hw : s.Wf) (un : String → Option String) (hu : SysUnitsOk s.atoms un)
     (hb : cleanVects eps s.box.vects = s.box.vects)
     (hfb : ∀ u, boxUnit = some u → factor fac u ≠ 0)
     (hf : ∀ p ∈ s.atoms.props, ∀ u, effUnit p.1 (un p.1) = some u → factor fac u ≠ 0)
     (hdet : (∃ p ∈ s.atoms.props, effUnit p.1 (un p.1) = some "scaled") → M3.det s.box.vects ≠ 0) :
-    ∃ t, systemModel fac boxUnit (s.atoms.props.map (fun p => (p.1, un p.1))) s = some t ∧
-      systemRead fac eps t = some ⟨s.box, s.pbc, s.symbols, s.masses,
-        ⟨s.atoms.natoms, s.atoms.props.map (fun p => (p.1, ⟨p.2.shape, p.2.data.castU (effUnit p.1 (un p.1))⟩))⟩⟩ := by
-  obtain ⟨t, h1, h2⟩ := system_model_two fac fac eps boxUnit s hw un hu
-  refine ⟨t, h1, ?_⟩
+    (let box' : Box K := ⟨cleanVects eps (mapM3 (scaleFn fac fac boxUnit) s.box.vects),
+        s.box.origin.map (scaleFn fac fac boxUnit)⟩
+     (some ⟨box', s.pbc, s.symbols, s.masses,
+        ⟨s.atoms.natoms, s.atoms.props.map (sysPropFinal fac fac un s.box box')⟩⟩ : Option (SystemM K))) =
+    some ⟨s.box, s.pbc, s.symbols, s.masses,
+      ⟨s.atoms.natoms, s.atoms.props.map (fun p => (p.1, ⟨p.2.shape, p.2.data.castU (effUnit p.1 (un p.1))⟩))⟩⟩ := by
   have hid : scaleFn fac fac boxUnit = fun x => x := funext (scaleFn_self fac boxUnit hfb)
   have hM : mapM3 (fun x : K => x) s.box.vects = s.box.vects := by
     obtain ⟨⟨a, b, c⟩, ⟨d, e, f⟩, ⟨g, h, i⟩⟩ := s.box.vects; rfl
   have hO : s.box.origin.map (fun x : K => x) = s.box.origin := by
     obtain ⟨x, y, z⟩ := s.box.origin; rfl
-  rw [h2]
   simp only [hid, hM, hO, hb]
   congr 3
   apply List.map_congr_left
@@ -296,6 +335,40 @@ theorem system_model_roundtrip [LT K] [DecidableLT K] (fac : String → K) (eps 
     rw [rowsMap_pointwise _ (fun x => x) hrc n _ (by rw [fltD_length _ hns, hlen, hn]), List.map_id']
     rw [← rescale_scaled fac fac _ hns, rescale_self fac _ (by intro u hu'; cases hu'; simp [factor])]
   · simp only [sysPropFinal, hsc, if_false, propTwo, rescale_self fac _ (hf p hp)]
+
+/-- **system_model_roundtrip**: `System(model=system.model(box_unit=…, prop_unit=…))` reproduces the cell and
+    origin, the periodic flags, the symbols and masses (missing ones as `None`, the `atom-type-mass` entries
+    omitted when all are missing), `natoms`, and every per-atom property — shape and buffer — including
+    properties stored box-scaled (`'scaled'`: written through `cartToRel`, read through `relToCart` of the
+    re-read box; exact because the cell is non-degenerate).  Hypotheses: the `System`/`Atoms`/`Box` object
+    invariants (`hw`, `hb`), an admissible unit assignment, non-zero unit factors, and `det ≠ 0` when some
+    property is stored scaled. -/
+theorem system_model_roundtrip [LT K] [DecidableLT K] (fac : String → K) (eps : K) (boxUnit : Option String)
+    (s : SystemM K) (hw : s.Wf) (un : String → Option String) (hu : SysUnitsOk s.atoms un)
+    (hb : cleanVects eps s.box.vects = s.box.vects)
+    (hfb : ∀ u, boxUnit = some u → factor fac u ≠ 0)
+    (hf : ∀ p ∈ s.atoms.props, ∀ u, effUnit p.1 (un p.1) = some u → factor fac u ≠ 0)
+    (hdet : (∃ p ∈ s.atoms.props, effUnit p.1 (un p.1) = some "scaled") → M3.det s.box.vects ≠ 0) :
+    ∃ t, systemModel fac boxUnit (s.atoms.props.map (fun p => (p.1, un p.1))) s = some t ∧
+      systemRead fac eps t = some ⟨s.box, s.pbc, s.symbols, s.masses,
+        ⟨s.atoms.natoms, s.atoms.props.map (fun p => (p.1, ⟨p.2.shape, p.2.data.castU (effUnit p.1 (un p.1))⟩))⟩⟩ := by
+  obtain ⟨t, h1, h2⟩ := system_model_two fac fac eps boxUnit s hw un hu
+  exact ⟨t, h1, h2.trans (system_expected_same fac eps boxUnit s hw un hu hb hfb hf hdet)⟩
+
+/-- **system_model_roundtrip_xml**: the same through XML text (`System.dump('system_model', format='xml')` →
+    `load('system_model', …)`): one-element `atom-type-symbol` / `atom-type-mass` / `property` lists and
+    length-1 value lists are collapsed by the codec and restored by `aslist` / broadcasting. -/
+theorem system_model_roundtrip_xml [LT K] [DecidableLT K] (fac : String → K) (eps : K) (boxUnit : Option String)
+    (s : SystemM K) (hw : s.Wf) (un : String → Option String) (hu : SysUnitsOk s.atoms un)
+    (hb : cleanVects eps s.box.vects = s.box.vects)
+    (hfb : ∀ u, boxUnit = some u → factor fac u ≠ 0)
+    (hf : ∀ p ∈ s.atoms.props, ∀ u, effUnit p.1 (un p.1) = some u → factor fac u ≠ 0)
+    (hdet : (∃ p ∈ s.atoms.props, effUnit p.1 (un p.1) = some "scaled") → M3.det s.box.vects ≠ 0) :
+    ∃ t, systemModel fac boxUnit (s.atoms.props.map (fun p => (p.1, un p.1))) s = some t ∧
+      systemRead fac eps (xmlNorm t) = some ⟨s.box, s.pbc, s.symbols, s.masses,
+        ⟨s.atoms.natoms, s.atoms.props.map (fun p => (p.1, ⟨p.2.shape, p.2.data.castU (effUnit p.1 (un p.1))⟩))⟩⟩ := by
+  obtain ⟨t, h1, h2⟩ := system_model_two_xml fac fac eps boxUnit s hw un hu
+  exact ⟨t, h1, h2.trans (system_expected_same fac eps boxUnit s hw un hu hb hfb hf hdet)⟩
 
 /-- a tilted cell with non-zero origin, a missing symbol and missing masses satisfies the hypotheses
     (`pos` stored scaled, a tensor property in GPa). -/
@@ -375,6 +448,20 @@ theorem elastic_model_roundtrip_exact [LT K] [DecidableLT K] (fac : String → K
   obtain ⟨t, h1, h2⟩ := elastic_model_roundtrip fac eps atol rtol u norm c hlen hf
   exact ⟨t, h1, by rw [h2, hc]⟩
 
+/-- the same through XML text (36 values and a two-entry `shape`: nothing collapses). -/
+theorem elastic_model_roundtrip_xml [LT K] [DecidableLT K] (fac : String → K) (eps atol rtol : K) (u : Option String)
+    (norm : List K → List K) (c : List K) (hlen : (norm c).length = 36)
+    (hf : ∀ s, u = some s → factor fac s ≠ 0) :
+    ∃ t, ecModel fac u norm c = some t ∧ ecRead fac eps atol rtol (xmlNorm t) = cijSet eps atol rtol (norm c) := by
+  obtain ⟨t, h1, h2⟩ := valueUnit_model_two_xml fac fac u ⟨[6, 6], .flt (norm c)⟩
+    (by simpa [Data.length, prodNat] using hlen) (by simp [prodNat]) (by intro l h; cases h)
+  refine ⟨DM.node [("elastic-constants", DM.node [("Cij", t)])], by simp only [ecModel, h1], ?_⟩
+  have hid : scaleFn fac fac u = fun x => x := funext (scaleFn_self fac u hf)
+  have hx : xmlNorm (DM.node [("elastic-constants", DM.node [("Cij", t)])]) =
+      DM.node [("elastic-constants", DM.node [("Cij", xmlNorm t)])] := by simp [xmlNorm, xmlNormKV]
+  rw [hx]
+  simp [ecRead, DM.get?, List.lookup, h2, Data.rescale, Data.toFlt, hid, xmlShape]
+
 /-- under two configurations every constant is rescaled by the pressure unit's ratio before the setter. -/
 theorem elastic_model_two [LT K] [DecidableLT K] (fac1 fac2 : String → K) (eps atol rtol : K) (u : Option String)
     (norm : List K → List K) (c : List K) (hlen : (norm c).length = 36) :
@@ -393,4 +480,38 @@ example : cijSet (1 / 1000000000 : ℚ) (1 / 1000000000) (1 / 100000)
      0, 0, 0, 0, 0, 1 / 2] := by decide +kernel
 
 end field
+
+/-! ## the object invariants are established by the setters (ordered fields) -/
+
+section ordered
+variable [Field K] [LinearOrder K] [IsStrictOrderedRing K]
+
+/-- **box_setter_roundtrip**: any `Box` built through the `vects` setter (`0 ≤ eps < 1`; atomman uses
+    `eps = 1e-9`) — i.e. every `Box` object — comes back from its data model exactly. -/
+theorem box_setter_roundtrip (fac : String → K) (eps : K) (h0 : 0 ≤ eps) (h1 : eps < 1) (u : Option String)
+    (m : M3 K) (o : V3 K) (hf : ∀ s, u = some s → factor fac s ≠ 0) :
+    ∃ t, boxModel fac u ⟨cleanVects eps m, o⟩ = some t ∧
+      boxRead fac eps t = some ⟨cleanVects eps m, o⟩ ∧ boxRead fac eps (xmlNorm t) = some ⟨cleanVects eps m, o⟩ := by
+  obtain ⟨t, h1', h2⟩ := box_model_roundtrip fac eps u ⟨cleanVects eps m, o⟩ hf
+  obtain ⟨t', h1'', h3⟩ := box_model_roundtrip_xml fac eps u ⟨cleanVects eps m, o⟩ hf
+  have : t' = t := by rw [h1'] at h1''; exact (Option.some.inj h1'').symm
+  subst this
+  exact ⟨t', h1', by rw [h2, cleanVects_idem eps h0 h1], by rw [h3, cleanVects_idem eps h0 h1]⟩
+
+/-- **elastic_setter_roundtrip**: constants accepted by the `Cij` setter (every `ElasticConstants` object) come
+    back from `model(unit=u)` (no normalisation) exactly, through the tree and through XML text. -/
+theorem elastic_setter_roundtrip (fac : String → K) (eps atol rtol : K) (h0 : 0 ≤ eps) (h1 : eps < 1)
+    (u : Option String) (l c : List K) (hc : cijSet eps atol rtol l = some c)
+    (hf : ∀ s, u = some s → factor fac s ≠ 0) :
+    ∃ t, ecModel fac u id c = some t ∧ ecRead fac eps atol rtol t = some c ∧
+      ecRead fac eps atol rtol (xmlNorm t) = some c := by
+  have hlen := cijSet_length eps atol rtol l c hc
+  have hidem := cijSet_idem eps atol rtol h0 h1 l c hc
+  obtain ⟨t, e1, e2⟩ := elastic_model_roundtrip fac eps atol rtol u id c hlen hf
+  obtain ⟨t', e1', e3⟩ := elastic_model_roundtrip_xml fac eps atol rtol u id c hlen hf
+  have : t' = t := by rw [e1] at e1'; exact (Option.some.inj e1').symm
+  subst this
+  exact ⟨t', e1, by rw [e2]; exact hidem, by rw [e3]; exact hidem⟩
+
+end ordered
 end Atomman.C10
